@@ -111,6 +111,18 @@ def rule_commit_binding(S, res):
             for bi, t in b.calls():
                 if "polytune::mpc::faand::commit" in callee_names(t) and t["d"]["l"] in locs:
                     through = True
+                # `values.iter().map(|v| commit(..v..)).collect()`: the commitment is built by the closure of an adaptor
+                # whose result is the payload
+                if t["d"]["l"] in locs:
+                    for a in t["args"]:
+                        aty = a["p"]["ty"] if a["k"] != "const" else a.get("ty", "")
+                        if "{closure:" in aty:
+                            cid = aty[aty.index("{closure:") + 9:]
+                            cid = cid[:cid.rindex("}")] if "}" in cid else cid
+                            for ck in fg.by_id.get(cid, []):
+                                cb = fg.bodies[ck]
+                                if any("polytune::mpc::faand::commit" in callee_names(ct) for _cbi, ct in cb.calls()):
+                                    through = True
             if through:
                 res.ok("R3.bind", inst, fl(sa.sp), "the committed payload is commit(..) of the value `%s` that is later revealed" % (b.locals[rl]["name"] or rl))
             else:
